@@ -44,10 +44,12 @@ Proof. vm_compute. repeat split; reflexivity. Qed.
    values and directive arguments, an extension adds something, a definition kind has only its own
    parts, no description is the word `implements` (deviation F_S3 would take it for the keyword),
    extensions of interfaces implement nothing where deviation F_S4 forbids it, a schema definition
-   has operation types unless F_S1 admits none) and the size bounds against the fuel. *)
-Theorem C06_grammatical_documents_are_parsed : forall d items input fuel ix bi,
+   has operation types unless F_S1 admits none) and the size bounds against the fuel.  dk says, for each
+   description, whether it is written as a quoted string or as a block string: either is read back. *)
+Theorem C06_grammatical_documents_are_parsed : forall (dk : str -> kind), (forall s, dk s = String_ \/ dk s = BlockString) ->
+  forall d items input fuel ix bi,
   Forall (item_ok d fuel fuel) items -> (length items < fuel)%nat -> (items <> [] \/ d F_S7 = true) ->
-  toks d input (flat_map flat_item items) ->
+  toks d input (flat_map (flat_item dk) items) ->
   exists doc' s, parseSchemaWith d fuel 0 ix bi input = (POk doc', s)
                  /\ erase_sdoc doc' = erase_sdoc (with_builtin bi (sdoc_of items)).
 Proof. exact parseSchema_complete. Qed.
@@ -55,16 +57,18 @@ Print Assumptions C06_grammatical_documents_are_parsed.
 
 (* The same for the entry point as it is: the fuel parseSchema gives itself (2*|input|+8) always suffices,
    so the size conditions disappear and only the intrinsic ones remain (item_wok). *)
-Theorem C06_grammatical_documents_are_parsed_by_parseSchema : forall d items input ix bi,
-  Forall (item_wok d) items -> (items <> [] \/ d F_S7 = true) -> toks d input (flat_map flat_item items) ->
+Theorem C06_grammatical_documents_are_parsed_by_parseSchema : forall d (dk : str -> kind) items input ix bi,
+  (forall s, dk s = String_ \/ dk s = BlockString) ->
+  Forall (item_wok d) items -> (items <> [] \/ d F_S7 = true) -> toks d input (flat_map (flat_item dk) items) ->
   exists doc', parseSchema d 0 ix bi input = POk doc' /\ erase_sdoc doc' = erase_sdoc (with_builtin bi (sdoc_of items)).
 Proof. exact parseSchema_complete_entry. Qed.
 Print Assumptions C06_grammatical_documents_are_parsed_by_parseSchema.
 
 (* one production on its own: a type definition or extension of any kind, in front of any continuation
    that starts like a definition *)
-Theorem C06_type_definitions_are_parsed : forall d F fuel ext desc x s rest, def_ok d F fuel ext x -> dfol rest ->
-  stream d s ((Name, kw_of x.(df_kind)) :: (Name, x.(df_name)) :: flat_defbody x ++ rest) ->
+Theorem C06_type_definitions_are_parsed : forall (dk : str -> kind), (forall s, dk s = String_ \/ dk s = BlockString) ->
+  forall d F fuel ext desc x s rest, def_ok d F fuel ext x -> dfol rest ->
+  stream d s ((Name, kw_of x.(df_kind)) :: (Name, x.(df_name)) :: flat_defbody dk x ++ rest) ->
   exists x' s1, run d (parseTypeDef d fuel x.(df_kind) (kw_of x.(df_kind)) ext desc) F s = (x', s1)
                 /\ erase_def x' = erase_def (mkDef x.(df_kind) desc x.(df_name) x.(df_dirs) x.(df_ifaces) x.(df_fields) x.(df_types) x.(df_enums) x.(df_pos) false)
                 /\ stream d s1 rest.
@@ -87,10 +91,12 @@ Proof.
   repeat constructor; cbn; try lia; try discriminate; try reflexivity; auto.
 Qed.
 
-(* Layout independence, and independence of the source index: the same tokens give the same document. *)
-Theorem C06_layout_independent : forall d items in1 in2 ix1 ix2 bi,
+(* Layout independence, independence of the source index and of how descriptions are quoted: the same
+   items give the same document. *)
+Theorem C06_layout_independent : forall d (dk1 dk2 : str -> kind) items in1 in2 ix1 ix2 bi,
+  (forall s, dk1 s = String_ \/ dk1 s = BlockString) -> (forall s, dk2 s = String_ \/ dk2 s = BlockString) ->
   Forall (item_wok d) items -> (items <> [] \/ d F_S7 = true) ->
-  toks d in1 (flat_map flat_item items) -> toks d in2 (flat_map flat_item items) ->
+  toks d in1 (flat_map (flat_item dk1) items) -> toks d in2 (flat_map (flat_item dk2) items) ->
   exists x1 x2, parseSchema d 0 ix1 bi in1 = POk x1 /\ parseSchema d 0 ix2 bi in2 = POk x2 /\ erase_sdoc x1 = erase_sdoc x2.
 Proof. exact schema_layout_independent. Qed.
 Print Assumptions C06_layout_independent.
